@@ -128,20 +128,24 @@ def rule_anchor_provenance(ctx, facts, g, prefix):
     f, pos = code_positions(ctx, facts, prefix)
     if f is None:
         return
+    from .c14 import rule_compared
+    from .gram import args_leading_literals
+    lead = args_leading_literals(g) if "macro_args" in g.rules else None
     for p in pos:
+        span = p["span"]
+        d = single_def(f, span) if span is not None else None
+        is_args = False
+        if d and d[1] == "call" and d[2].matches(r"Pair::<.*>::as_span$"):
+            pair = pure_local(f, d[2].args[0])
+            is_args = rule_compared(f, pair) == {"macro_args"}
         if p["shift"] == 1:
-            # the shifted anchor must be the macro_args pair's span and `(` must be one byte
-            span = p["span"]
-            d = single_def(f, span) if span is not None else None
-            ok_pair = False
-            if d and d[1] == "call" and d[2].matches(r"Pair::<.*>::as_span$"):
-                pair = pure_local(f, d[2].args[0])
-                from .c14 import rule_compared
-                ok_pair = rule_compared(f, pair) == {"macro_args"}
-            ctx.check(ok_pair, prefix, "shift-span", "the +1 anchor is relative to the macro_args span (whose first byte is `(`)", p["call"].where())
-            first = g.seq_of("macro_args")[0] if "macro_args" in g.rules else None
-            ctx.check(first is not None and first["k"] == "str" and first["v"] == "(" , prefix, "shift-paren",
-                      "macro_args starts with the one-byte token `(`, so +1 byte = +1 column", "src/parser/rust_grammar.pest")
+            ctx.check(is_args, prefix, "shift-span", "the +1 anchor is relative to the macro_args span (whose first byte is `(`)", p["call"].where())
+        if is_args and p["side"] == "start" and lead is not None:
+            # the anchor just inside the bracket: shift = byte length of the literal tokens macro_args starts with
+            n = sum(len(x.encode()) for x in lead)
+            ctx.check(p["shift"] == n and lead in ([], ["("]), prefix, "shift-paren",
+                      "the anchor at the start of the arguments is the macro_args span's start + %d, the length of the literal tokens %s that macro_args begins with (found +%d)" % (n, lead, p["shift"]),
+                      p["call"].where())
     # message anchor: span of the literal's inner string_value
     msg = [p for p in pos if p["name"] and "span" in (p["name"] or "") and p["shift"] == 0]
     prod = g.produces("string_literal") if "string_literal" in g.rules else set()
@@ -181,6 +185,7 @@ def run(ctx):
     prov = Prov(f)
     dom = cfg.dominators(f)
     kinds = assigned_kinds(f)
+    finder.rule_statement_local_state(ctx, facts, "C13-R1")
     pw = finder.pair_walk(ctx, facts, "C13-R1")
     HB = [pw[1].bb] if pw else []
     # ---- key constant --------------------------------------------------------------------
@@ -470,6 +475,7 @@ def run(ctx):
     gram.g15_kvp_args(ctx, g, "C13-G")
     gram.g6_modifiers(ctx, g, "C13-G")
     gram.g14_order(ctx, g, "C13-G")
+    gram.g16_strings_atomic(ctx, g, "C13-G")
     ctx.assume("the log crate's kv grammar: `target: expr,` first, then `k = v` pairs separated by `,` and terminated by `;`, then the format string")
     return {
         "explanation": "Decision tables of the structured branch extracted from rustc MIR of the finder (key comparison, value "
